@@ -186,7 +186,7 @@ pub fn run(ctx: &Ctx) -> Result<(), String> {
     crate::inproc::kernel_selftest(140)?;
     let stats = Stats { replies: AtomicU64::new(0), histories: AtomicU64::new(0), transitions: AtomicU64::new(0), batch_shapes: Mutex::new(BTreeSet::new()) };
     let (bss, ks, sizes): (Vec<u8>, Vec<usize>, Vec<usize>) = match ctx.tier {
-        Tier::Quick => (vec![1, 2, 3, 7, 64], vec![1, 2, 3, 4, 5, 8, 9, 16, 17, 33, 64, 65], vec![1024, 1028, 1500]),
+        Tier::Quick => (vec![1, 2, 3, 4, 5, 7, 8, 9, 15, 16, 17, 31, 32, 33, 63, 64], vec![1, 2, 3, 4, 5, 7, 8, 9, 16, 17, 32, 33, 64, 65, 128], vec![1024, 1028, 1500]),
         Tier::Thorough => ((1..=64).collect(), (1..=65).chain([128]).collect(), (1024..=1500).step_by(4).collect()),
     };
     // determinism self-test: the same history twice gives the same abstract observation
